@@ -413,7 +413,201 @@ func genRandom(fl *hx.Flags, emit func(Case), count func(string)) {
 		}
 		g := &rgen{r: r, bs: bs, segs: segs, count: segs * 8 * bs, cells: 40000}
 		ops := g.ops(n)
-		emit(Case{Kind: "seq", Bs: bs, Size: size, Fit: fit, Init: in, Backend: "mem", Ops: ops, Every: everyFor(g.count, n), Note: "random/" + style})
+		every, note := everyFor(g.count, n), "random/"+style
+		// Grow of the storage under the live allocator: decided on a stream of its own, so that the
+		// sequences without Grow stay what they were
+		rg := prng.New(fl.Seed, "C17grow", uint64(i))
+		if bs <= 512 && ((!fit && rg.Chance(2, 5)) || (fit && rg.Chance(1, 6))) {
+			ops = withGrow(rg, ops, bs, size, segs, fit, false)
+			if every == 0 || every > 6 {
+				every = 6
+			}
+			note += "+grow"
+			count("grow:random-cases")
+		}
+		emit(Case{Kind: "seq", Bs: bs, Size: size, Fit: fit, Init: in, Backend: "mem", Ops: ops, Every: every, Note: note})
+	}
+}
+
+// growTo picks a new size for a storage of size bytes
+func growTo(r *prng.R, bs, size int64, fit, mmf bool) int64 {
+	ss := segSize(bs)
+	rem := ss - size%ss // bytes missing to the next whole number of segments (ss when there is no tail)
+	var n int64
+	x := r.Intn(100)
+	if fit && x >= 25 {
+		x = 40 + x%50 // under fit mostly whole segments
+	}
+	switch {
+	case x < 25: // less than what completes a segment
+		n = size + 1 + int64(r.U64()%uint64(rem))
+		if n >= size+rem {
+			n = size + rem - 1
+		}
+		if n <= size {
+			n = size + 1
+		}
+		if r.Chance(1, 3) {
+			n = size + min64(bs, rem-1) // room for the next header, not for the segment
+			if n <= size {
+				n = size + 1
+			}
+		}
+	case x < 45: // exactly what completes the segment
+		n = size + rem
+	case x < 65: // exactly one segment
+		n = size + ss
+	case x < 85: // several
+		n = size + ss*int64(r.Range(2, 3))
+		if !fit && r.Chance(1, 2) {
+			n += int64(r.U64() % uint64(ss))
+		}
+	case x < 92: // smaller: an error
+		n = size - 1 - int64(r.U64()%uint64(size))
+	case x < 96:
+		n = size
+	default:
+		n = size + rem + bs + int64(r.Intn(8)) // a whole segment and the header of the next one
+	}
+	if mmf {
+		// MMFile.Grow: a multiple of 4096 above the current size
+		if n <= size {
+			n = size + 1
+		}
+		n = (n + 4095) / 4096 * 4096
+	}
+	return n
+}
+
+// withGrow cuts Grow operations into a random sequence generated for segs segments: the calls after a
+// Grow go to the same allocator (its Count() stays), a reopen follows later, then calls over the index
+// range of the enlarged allocator
+func withGrow(r *prng.R, base []Op, bs, size, segs int64, fit, mmf bool) []Op {
+	ss := segSize(bs)
+	n := len(base)
+	p1 := r.Range(n/6, n/2)
+	p2 := p1 + r.Range(6, 40)
+	if p2 > n {
+		p2 = n
+	}
+	ops := append([]Op{}, base[:p1]...)
+	cur := size
+	grow := func() {
+		to := growTo(r, bs, cur, fit, mmf)
+		ops = append(ops, Op{K: "G", I: to})
+		if to >= cur {
+			cur = to
+		}
+	}
+	reopen := func() {
+		ops = append(ops, Op{K: "R"})
+		if !fit || cur%ss == 0 {
+			segs = cur / ss
+		}
+	}
+	grow()
+	if r.Chance(1, 4) {
+		ops = append(ops, Op{K: "A"}, Op{K: "V"})
+		grow() // twice before the reopen
+	}
+	ops = append(ops, base[p1:p2]...)
+	rounds := r.Range(1, 2)
+	for k := 0; k < rounds; k++ {
+		reopen()
+		cnt := segs * 8 * bs
+		if mmf {
+			cnt = min64(cnt, 4*8*bs)
+		}
+		g := &rgen{r: r, bs: bs, segs: segs, count: cnt, cells: 12000}
+		if bs <= 4 && r.Chance(1, 2) {
+			// run into the segments that are new
+			for j := int64(0); j < cnt; j++ {
+				ops = append(ops, Op{K: "A"})
+			}
+			ops = append(ops, Op{K: "V"})
+		}
+		ops = append(ops, Op{K: "S"}, Op{K: "C"}, Op{K: "F", I: cnt - 1}, Op{K: "F", I: cnt - 8*bs}, Op{K: "W", I: cnt - 1, V: 255}, Op{K: "B", I: cnt - 8*bs})
+		ops = append(ops, g.ops(r.Range(15, 35))...)
+		if k+1 < rounds {
+			grow()
+			ops = append(ops, g.ops(r.Range(5, 15))...)
+		}
+	}
+	return ops
+}
+
+// ---- 3b. Grow of the storage under the live allocator, directed
+func genGrow(fl *hx.Flags, emit func(Case)) {
+	rep := func(o Op, n int64) []Op {
+		r := make([]Op, n)
+		for i := range r {
+			r[i] = o
+		}
+		return r
+	}
+	cat := func(parts ...[]Op) []Op {
+		var r []Op
+		for _, p := range parts {
+			r = append(r, p...)
+		}
+		return r
+	}
+	bss := []int64{1, 2, 8, 64}
+	if fl.Tier == "thorough" {
+		bss = []int64{1, 2, 4, 8, 16, 64, 256}
+	}
+	A, V, C, S, R := Op{K: "A"}, Op{K: "V"}, Op{K: "C"}, Op{K: "S"}, Op{K: "R"}
+	G := func(n int64) Op { return Op{K: "G", I: n} }
+	F := func(i int64) Op { return Op{K: "F", I: i} }
+	for _, bs := range bss {
+		if !validBs(bs) {
+			continue
+		}
+		ss, bis := segSize(bs), 8*bs
+		every := 1
+		if bs > 8 {
+			every = 4
+		}
+		for _, segs := range []int64{1, 2} {
+			count := segs * bis
+			for _, fit := range []bool{false, true} {
+				size := segs * ss
+				tail := int64(0)
+				if !fit {
+					tail = bs/2 + 1
+				}
+				size += tail
+				whole := size - tail + ss // one more whole segment
+				// a segment filled, Grow by a segment: the live allocator stays exhausted; a block arranged
+				// before the Grow is freed and arranged again; the reopened allocator goes on in the new segment
+				emit(Case{Kind: "seq", Bs: bs, Size: size, Fit: fit, Backend: "mem", Every: every, RFrom: int(count), Note: "grow/full",
+					Ops: cat(rep(A, count), []Op{A, G(whole), A, V, C, S, F(3 % count), F(count - 1), A, F(count), R, S, C, V},
+						rep(A, 3), []Op{F(count), F(count + 1), F(0), Op{K: "W", I: count, V: 255}, Op{K: "B", I: count + bis - 1}, A, A, V, F(count + bis), R, V})})
+				// partially filled (the hint is inside a header), Grow by 1 byte / a header / one / three segments
+				for gi, to := range []int64{size + 1, size + bs, whole, size + 3*ss} {
+					k := []int64{3, 9, bis - 1, bis + 1}[gi] % count
+					emit(Case{Kind: "seq", Bs: bs, Size: size, Fit: fit, Backend: "mem", Every: every, Note: "grow/partial",
+						Ops: cat(rep(A, k), []Op{G(to), A, A, F(0), A, V, Op{K: "W", I: 1 % count, V: 255}, Op{K: "P", I: 0, P: bs - 1, V: 254}, F(k), R, S, C, V, A, A,
+							F(count), Op{K: "B", I: count}, F(k + 1), A, V})})
+				}
+				// smaller (an error), the same size, twice in a row, Grow and reopen back to back, reopen twice
+				emit(Case{Kind: "seq", Bs: bs, Size: size, Fit: fit, Backend: "mem", Every: 1, Note: "grow/edge",
+					Ops: []Op{A, A, G(size - 1), V, G(0), G(-5), G(size), A, V, R, V, G(whole - 1), G(whole), R, R, S, V, A, G(whole + ss), G(whole + 2*ss), A, R, S, C, V, F(0), F(count), A, A}})
+				if fit {
+					// under fit: by a segment (reopen succeeds), by a part (reopen fails, the old allocator goes on), completed
+					emit(Case{Kind: "seq", Bs: bs, Size: size, Fit: true, Backend: "mem", Every: 1, Note: "grow/fit",
+						Ops: cat([]Op{A, A, G(size + ss), A, R, S, V, A, G(size + ss + bs), A, R, S, V, A, F(1), A, G(size + 2*ss - 1), R, G(size + 2*ss), V, R, S, C, V},
+							rep(A, 4), []Op{F(count + bis), F(2), A, A, V})})
+				} else {
+					// garbage in the tail behind the last whole segment, where the header of the next segment
+					// will be: after Grow and reopen those bits are allocated blocks
+					in := [][3]int64{{segs * ss, min64(tail, bs), 0xA5}}
+					emit(Case{Kind: "seq", Bs: bs, Size: size, Fit: false, Backend: "mem", Init: in, Every: every, Note: "grow/garbage-tail",
+						Ops: cat([]Op{A, A, V, G(size + 1), V, G(whole), A, V, F(count), R, S, C, V, F(count), F(count + 1), F(count + 2), A, A, A, V, F(count + 7), F(count + 5), A, V},
+							rep(A, min64(count, 40)), []Op{V, R, V})})
+				}
+			}
+		}
 	}
 }
 
@@ -458,7 +652,29 @@ func genMMF(fl *hx.Flags, emit func(Case)) {
 		if size > 4096 && r.Chance(1, 2) {
 			grown = 4096 * int64(r.Range(1, int(min64(size/4096-1, 8))))
 		}
-		emit(Case{Kind: "seq", Bs: bs, Size: size, Fit: fit, Init: in, Backend: "mmf", Ops: ops, Every: everyFor(segs*8*bs, n), Note: "mmf", Grown: grown})
+		every, note := everyFor(segs*8*bs, n), "mmf"
+		if i%2 == 1 && bs < 1024 {
+			// MMFile.Grow under the live allocator (the file is mapped again): sizes are multiples of 4096
+			rg := prng.New(fl.Seed, "C17mmfgrow", uint64(i))
+			to := growTo(rg, bs, size, fit, true)
+			step := int64(4096)
+			if fit {
+				// whole segments and whole pages: a reopen that fails is not run through a mapped file (the
+				// "R" of this backend closes the mapping first, the old allocator could not go on)
+				step = 4096 * (8*bs + 1)
+				to = size + step*int64(rg.Range(1, 2))
+			}
+			ops[12] = Op{K: "G", I: to} // between the reopens at 10 and 27
+			ops[13], ops[15] = Op{K: "A"}, Op{K: "A"}
+			if every == 0 || every > 5 {
+				every = 5
+			}
+			if to < 64<<20 {
+				ops = append(ops, Op{K: "G", I: to + step*int64(1+rg.Range(0, 39)/int(step/4096))}, Op{K: "A"}, Op{K: "F", I: 0}, Op{K: "V"}, Op{K: "A"}, Op{K: "R"}, Op{K: "S"}, Op{K: "V"}, Op{K: "A"})
+			}
+			note = "mmf+grow"
+		}
+		emit(Case{Kind: "seq", Bs: bs, Size: size, Fit: fit, Init: in, Backend: "mmf", Ops: ops, Every: every, Note: note, Grown: grown})
 	}
 }
 
@@ -489,6 +705,7 @@ func generate(fl *hx.Flags, emit func(Case), count func(string)) {
 	genCtor(fl, emit)
 	genExhaustive(fl, emit)
 	genRandom(fl, emit, count)
+	genGrow(fl, emit)
 	genMMF(fl, emit)
 	genConc(fl, emit)
 }
